@@ -127,7 +127,11 @@ def real_index(index):
     if k == 'slice':
         return slice(index['a'], index['b'], index['s'])
     if k == 'list':
+        if index.get('lform') == 'array':
+            return np.array([int(i) for i in index['l']], dtype=int)
         return [int(i) for i in index['l']]
+    if index.get('mform') == 'list':
+        return [bool(b) for b in index['m']]          # a mask given as a plain Python list of bools
     return np.array(index['m'], dtype=bool)
 
 
@@ -136,7 +140,7 @@ class AtomsEngine(Engine):
     name = 'session_atoms'
     max_ops = 50
     expected_probes = ['inplace_overwrite_other_dtype', 'alias_candidate_used', 'refused_raised', 'scribble_result',
-                       'scribble_safecopy', 'setitem_overlap', 'extend_new_props_both_sides', 'natypes_grew', 'readonly_reassign_refused', 'noncontiguous_input', 'atype_lt1_scalar_forms',
+                       'scribble_safecopy', 'setitem_overlap', 'extend_new_props_both_sides', 'natypes_grew', 'readonly_reassign_refused', 'noncontiguous_input', 'atype_lt1_scalar_forms', 'default_constructed_object',
                        'negative_index', 'mask_index', 'scaled_write', 'prop_atype_single_new_key', 'df_checked',
                        'box_set_with_possible_sharers', 'box_alias_candidate_used']
     rule = ('Each run keeps a pool of up to 6 live Atoms/System objects (parent/child links recorded) and applies up to '
@@ -224,11 +228,11 @@ class AtomsEngine(Engine):
             else:
                 l = [r.randrange(n) for _ in range(m)]
             l = [i - n if r.random() < 0.3 else i for i in l]
-            return {'k': 'list', 'l': l}
+            return {'k': 'list', 'l': l, 'lform': r.choice(['list', 'list', 'array'])}
         m = [r.random() < 0.5 for _ in range(n)]
         if not any(m):
             m[r.randrange(n)] = True
-        return {'k': 'mask', 'm': m}
+        return {'k': 'mask', 'm': m, 'mform': r.choice(['array', 'array', 'list'])}
 
     def _spec(self, ctx, st, n, names=None, box=None):
         """Inline description of a fresh Atoms: atype, pos and a subset of registry properties."""
@@ -251,7 +255,7 @@ class AtomsEngine(Engine):
         pool = st['pool']
         if not pool or (len(pool) < 2 and r.random() < 0.5):
             return self._gen_new(ctx, st)
-        choices = [('new', 0.4), ('set_whole', 2.0), ('prop_get', 1.5), ('prop_set', 2.0), ('prop_atype', 1.0),
+        choices = [('new', 0.4), ('new_default', 0.25), ('set_whole', 2.0), ('prop_get', 1.5), ('prop_set', 2.0), ('prop_atype', 1.0),
                    ('extend', 0.8 * cfg['w_struct']), ('getitem', 1.0 * cfg['w_struct']), ('setitem', 1.0 * cfg['w_struct']),
                    ('deepcopy', 0.3), ('df', 0.3), ('sys', 2.0 * cfg['w_sys']), ('drop', 0.2), ('ro_cycle', 0.35)]
         if not cfg['fault_free']:
@@ -262,6 +266,8 @@ class AtomsEngine(Engine):
         reg = st['reg']
         if k == 'new':
             return self._gen_new(ctx, st)
+        if k == 'new_default':
+            return {'op': 'new_default', 'how': r.choice(['Atoms()', 'natoms', 'natoms', 'extend_empty']), 'n': r.choice([1, 1, 2, 3])}
         if k == 'drop':
             return {'op': 'drop', 'o': slot}
         if k == 'set_whole':
@@ -619,6 +625,29 @@ class AtomsEngine(Engine):
         self._add(st, m)
         ctx.ev('op', 'new', {'n': m.n, 'kind': m.kind, 'props': list(m.reg), 'safecopy': sc})
         return {'changed': True, 'via': m.kind}
+
+    def _ap_new_default(self, ctx, st, op):
+        """Objects built from the library's documented defaults: one entry per atom, atype 1, position (0,0,0)."""
+        how, n = op['how'], int(op['n'])
+        if how == 'Atoms()':
+            n = 1
+            a = ctx.must('C06.X', am.Atoms, klass='Atoms()/default')
+        elif how == 'natoms':
+            a = ctx.must('C06.X', am.Atoms, natoms=n, klass='Atoms(natoms)/default')
+        else:
+            base = ctx.must('C06.X', am.Atoms, klass='Atoms()/default')
+            a = ctx.must('C06.A6', base.extend, n, klass='extend/count')
+            n = n + 1
+        m = self._new_obj(st, 'atoms')
+        m.reg['atype'] = ('int', ())
+        m.reg['pos'] = ('float', (3,))
+        for _ in range(n):
+            m.rows.append({'atype': 1, 'pos': np.zeros(3)})
+        m.real = a
+        self._add(st, m)
+        ctx.probe('default_constructed_object')
+        ctx.ev('op', 'new_default', {'how': how, 'n': n})
+        return {'changed': True, 'via': how}
 
     def _ap_drop(self, ctx, st, op):
         self._drop(st, op['o'])
